@@ -339,6 +339,26 @@ def replay(env, vc, model):
         hit = [b for b in bad if b[0] == key]
         return dict(status='reproduced' if hit else ('other-violation' if bad else 'not-reproduced'), op='dropin:' + unit, other=other,
                     me=str(me), compared_with=repr(o), violated=[list(b) for b in (hit or bad)])
+    if unit in ('param_replace', 'sig_replace'):
+        marker = {} if level == 'sig' else []
+        over = other == 'override'
+        try:
+            if level == 'sig':
+                res = me.replace(sources=marker) if over else me.replace()
+            else:
+                res = me.replace(annotation=7, sources=marker) if over else me.replace(annotation=7)
+        except Exception as e:
+            bad.append(('post:replace_keeps', 'replace raises %r' % (e,)))
+        else:
+            if type(res) is not type(me):
+                bad.append(('post:replace_keeps', 'type %r' % (type(res),)))
+            if res.sources is not (marker if over else me.sources):
+                bad.append(('post:replace_keeps', 'sources %s' % ('override ignored' if over else 'not kept')))
+            ua = 'upgraded_return_annotation' if level == 'sig' else 'upgraded_annotation'
+            if getattr(res, ua) is not getattr(me, ua):
+                bad.append(('post:replace_keeps', ua + ' not kept'))
+        return dict(status='reproduced' if bad else 'not-reproduced', op='dropin:' + unit, other=other, me=str(me),
+                    call='replace(sources=<empty>)' if over else 'replace()', violated=[list(b) for b in bad])
     return dict(status='no-replay', op='dropin:' + unit)
 
 
